@@ -5,7 +5,7 @@
    Complete proofs only; no axioms. *)
 From Coq Require Import Floats Lia.
 From EF Require Import Model.Base Gen.Tables Model.Lexer Model.Ast Model.Parser Model.Code Model.Value Model.Env Model.Reflect
-                       Model.Compiler Model.Optimizer Model.VM Model.Api.
+                       Model.Compiler Model.Optimizer Model.VM Model.Api Spec.Moded.
 From EF Require Import Proofs.EnvProofs.
 Open Scope N_scope.
 
@@ -28,6 +28,7 @@ Proof.
     try (injection H as _ <-; exact Hc).
   destruct (compile_program (4 * List.length (escript e) + 40) ast) as [pc| | |];
     try (injection H as _ <-; exact Hc).
+  destruct (negb (well_moded ast)); [injection H as _ <-; exact Hc|].
   destruct (if match env_get (if flag then env_set (eenv e) optimize_var (VBool true)
                               else env_unset (eenv e) optimize_var)
                        optimize_var with Some _ => true | None => false end
@@ -199,12 +200,44 @@ Proof.
   destruct (parse_script (parse_float o) max_depth (escript e)) as [ast| | |]; try discriminate.
   destruct (compile_program (4 * List.length (escript e) + 40) ast) as [pc| | |] eqn:Ec;
     try discriminate.
+  destruct (negb (well_moded ast)); [discriminate|].
   destruct (env_get (prep_env e flag) optimize_var) as [w|].
   - destruct (optimize_program pc) as [prog|] eqn:Eo; [|discriminate].
     injection H as <- <- <-. split; [exists ast; split; [reflexivity|exact Ec]|].
     split; [exact Eo|reflexivity].
   - injection H as <- <- <-. split; [exists ast; split; [reflexivity|exact Ec]|].
     split; reflexivity.
+Qed.
+
+(* Prepare accepts only well-moded scripts: a construct that leaves no value is never
+   used where a value is needed (evalfilter.go: checkModes).  `well_moded` stays folded:
+   its fuel is never looked at. *)
+Lemma prepare_ok_moded : forall o e flag u p e',
+  prepare o e flag = (PrepOk u p, e') ->
+  exists ast, parse_script (parse_float o) max_depth (escript e) = ParseOk ast /\
+              compile_program (4 * List.length (escript e) + 40) ast = CompOk u /\
+              well_moded ast = true.
+Proof.
+  intros o e flag u p e' H. unfold prepare in H.
+  destruct (parse_script (parse_float o) max_depth (escript e)) as [ast| | |]; try discriminate.
+  destruct (compile_program (4 * List.length (escript e) + 40) ast) as [pc| | |] eqn:Ec;
+    try discriminate.
+  destruct (well_moded ast) eqn:Ew; cbn [negb] in H; [|discriminate].
+  exists ast. split; [reflexivity|]. split; [|exact Ew].
+  match type of H with
+  | (match ?x with _ => _ end) = _ => destruct x; [|discriminate]
+  end.
+  injection H as <- _ _. exact Ec.
+Qed.
+
+(* ... and what it rejects for that reason alone *)
+Lemma prepare_rejects_ill_moded : forall o e flag ast pc,
+  parse_script (parse_float o) max_depth (escript e) = ParseOk ast ->
+  compile_program (4 * List.length (escript e) + 40) ast = CompOk pc ->
+  well_moded ast = false ->
+  prepare o e flag = (PrepReject, e).
+Proof.
+  intros o e flag ast pc Hp Hc Hw. unfold prepare. rewrite Hp, Hc, Hw. reflexivity.
 Qed.
 
 (* NoOptimize: the machine gets the compiled program itself, whatever the variables
